@@ -16,10 +16,10 @@ func init() {
 		Level: "Decides that the three admission functions (float, histogram, float histogram) implement the same decision table over the same comparisons up to the declared value-equality leaf, " +
 			"that commit re-validates with them and never writes a sample whose validation failed, that the admission window is snapshotted once per appender, that v1 and v2 appenders mark a series " +
 			"pending only after a successful validation, and that the per-batch commit order float → histogram → float histogram holds.",
-		Note:     "Trusted: go/packages, go/cfg; the normalisation table (which comparisons are the value-equality leaf) in checker/c02.go.",
-		Covers:   "decision tables of memSeries.appendable{,Histogram,FloatHistogram}; validation gates and argument provenance in commitFloats/commitHistograms/commitFloatHistograms and the v1/v2 append paths; writers of headAppenderBase.{minValidTime,headMaxt,oooTimeWindow}; commit order.",
-		NotCover: "that the decision table itself is the documented one beyond the extracted rows recorded in the evidence (comparisons on runtime timestamps and values).",
-		Run:      runC02,
+		Note:           "Trusted: go/packages, go/cfg; the normalisation table (which comparisons are the value-equality leaf) in checker/c02.go.",
+		Covers:         "decision tables of memSeries.appendable{,Histogram,FloatHistogram}; validation gates and argument provenance in commitFloats/commitHistograms/commitFloatHistograms and the v1/v2 append paths; writers of headAppenderBase.{minValidTime,headMaxt,oooTimeWindow}; commit order.",
+		NotCover:       "that the decision table itself is the documented one beyond the extracted rows recorded in the evidence (comparisons on runtime timestamps and values).",
+		Run:            runC02,
 		MinObligations: 30,
 	})
 }
